@@ -4,7 +4,7 @@
    Specification: CsvSpec.v (Split, QField, QBody, WsSplit).
    Delimiters: good_quoted_dlm dlm = non-empty, no double quote, and not starting with a space unless it is
    exactly one space (the regex eats the spaces that follow a quoted field, see C11_space_led_delimiter). *)
-From RBQL Require Import Base Csv CsvSpec CsvStr_Proofs Csv_Proofs CsvRoundtrip_Proofs.
+From RBQL Require Import Base Csv CsvSpec CsvStr_Proofs Csv_Proofs CsvRoundtrip_Proofs CsvNecessity_Proofs CsvRelabel_Proofs.
 
 (* the model computes exactly the dialect relation: a field is quoted iff some sp* QF sp* is followed by the
    delimiter or the end; otherwise it runs to the next delimiter; warning iff such a field contains a quote *)
@@ -88,6 +88,17 @@ Theorem C11_scanner_only_candidate : forall (raw u : str), QBody raw u ->
 Proof. exact qscan_wf. Qed.
 Print Assumptions C11_scanner_only_candidate.
 
+(* split_relabel: the splitter distinguishes only the quote, the space and the delimiter's characters - any injective
+   relabelling of characters that fixes the quote and the space (the delimiter relabelled along) commutes with
+   smart_split, all policies, both modes. This licenses the class-alphabet enumeration of the correspondence run. *)
+Theorem C11_split_relabel : forall (g : ch -> ch),
+  (forall a b, g a = g b -> a = b) -> g QT = QT -> g SP = SP ->
+  forall (pol : policy) (dlm : str) (preserve : bool) (line : str),
+  smart_split pol (map g dlm) preserve (map g line) =
+  (map (map g) (fst (smart_split pol dlm preserve line)), snd (smart_split pol dlm preserve line)).
+Proof. exact split_relabel. Qed.
+Print Assumptions C11_split_relabel.
+
 (* ---------------------------------------------------------------- non-vacuity *)
 
 (* good delimiters exist in every shape the property names: one character, TAB, one space, several characters *)
@@ -122,3 +133,9 @@ Example C11_space_led_delimiter :
   split_quoted_str [COMMA] false [QT; 97; QT; COMMA; 98]%N = ([[97]; [98]]%N, false).
 Proof. vm_compute. split; reflexivity. Qed.
 Print Assumptions C11_space_led_delimiter.
+
+(* ... and on that line the code is NOT the dialect: the hypothesis of C11_split_is_dialect cannot be dropped *)
+Theorem C11_space_led_delimiter_refuted :
+  exists dlm line fs w, good_quoted_dlm dlm = false /\ Split dlm line fs w /\ split_quoted_str dlm false line <> (fs, w).
+Proof. exact space_led_delimiter_not_dialect. Qed.
+Print Assumptions C11_space_led_delimiter_refuted.
